@@ -55,8 +55,11 @@ SCALE, BACKGROUND = 1.7, 0.25
 A_FULL = ([["gaussian", 3, 0.1], ["rectangle", 3, 0.1], ["uniform", 3, 0.2], ["lognormal", 3, 0.1],
            ["schulz", 3, 0.1], ["boltzmann", 3, 0.1]]
           + [["gaussian", n, 0.1] for n in (2, 5, 10, 11)]
-          + [["cut3"], ["cut2"], ["cut1"], ["cut0"]])
-A_SMALL = [["gaussian", 3, 0.1], ["schulz", 5, 0.1], ["rectangle", 2, 0.1], ["cut1"], ["cut0"]]
+          + [["gaussian", 1, 0.1]]
+          + [["cut3"], ["cut2"], ["cut1"], ["cut0"], ["cut0n1"]])
+# cut0n1: ONE requested point with non-zero width about a centre outside the limits (no qualifying point: the
+# background), the single-point twin of cut0 (seeded change C01-e2 short-cut npts <= 1 past the limits)
+A_SMALL = [["gaussian", 3, 0.1], ["schulz", 5, 0.1], ["rectangle", 2, 0.1], ["cut1"], ["cut0"], ["cut0n1"]]
 CUTOFFS = [1e-5, 0.05, 0.999, 1.5, "eqmin"]
 
 MESH_FAMILY = {
@@ -184,6 +187,8 @@ def _trunc(par, v, which):
             return "uniform", 2, 3.0 * d / v, v
         if which == "cut0":
             return "gaussian", 3, 0.1, lo - abs(v) - 1.0
+        if which == "cut0n1":
+            return "gaussian", 1, 0.1, lo - abs(v) - 1.0
     elif np.isfinite(hi) and v < hi and v > 0:
         d = hi - v
         if which == "cut3":
@@ -194,6 +199,8 @@ def _trunc(par, v, which):
             return "uniform", 2, 3.0 * d / v, v
         if which == "cut0":
             return "gaussian", 3, 0.1, hi + abs(v) + 1.0
+        if which == "cut0n1":
+            return "gaussian", 1, 0.1, hi + abs(v) + 1.0
     return None
 
 
